@@ -6,7 +6,9 @@ from common import STRATEGIES, all_seeds, check_cache, check_global_seeds, fail,
 BOUND = ("networks with <= 6 variables (all 1-variable, a seeded sample of the 256 2-variable networks, seeded random 3-6 variable networks) plus "
          "hand-built networks with <= 10 variables (motif-avoidant core alone and composed with latches/switches/sources, the inputs of findings "
          "D1-D12) and block-structured networks with <= 8 variables (a motif-avoidant module regulating a downstream bistable module; the same module under "
-         "different input valuations; with an independent extra module; seeded compositions); strategies build, block, bfs, dfs, scc, attractor-seed expansion with default configuration on a fresh diagram; seeds requested for every expanded node, optionally after requesting the candidates with the reduction options switched off")
+         "different input valuations; with an independent extra module; seeded compositions) and input-conditioned modules with IDENTICAL stable motifs (the same module, same variables, same motifs, "
+         "clean under one value of a source / bistable controller and motif-avoidant under the other: module x escape term x condition polarity x controller kind x controller names, with a downstream / "
+         "independent extra module, under two sources, and seeded perturbations kept only if brute force confirms the shape); strategies build, block, bfs, dfs, scc, attractor-seed expansion with default configuration on a fresh diagram; seeds requested for every expanded node, optionally after requesting the candidates with the reduction options switched off")
 RULE = "non-trivial = the network has at least two attractors or a non-fixed-point attractor"
 CASE_TIMEOUT = 60.0
 COMPLETE = ["build", "block", "bfs", "dfs", "scc", "aseeds"]
